@@ -332,6 +332,36 @@ theorem derived_set_uses_declared_accounts (ty : AcctType) (order : Order) (op :
   rw [key]
   exact only_named_accounts_change env _ tgt s ty.W op k hk1 hk2
 
+/-- `cache_last_set_wins`: the context cache holds the funder / recipient that was set LAST (any
+history of earlier `set_*` calls is overwritten), the two slots do not influence each other, and a
+cached-form cleanup is exactly the explicit-argument operation on that last-set account. -/
+theorem cache_last_set_wins (c : Cache) (l : List Funder) (b : Funder) (W : Nat) (op : CleanOp) :
+    ((l ++ [b]).foldl Cache.setFunder c).funder = some b ∧
+    ((l ++ [b]).foldl Cache.setRecipient c).recipient = some b ∧
+    ((l ++ [b]).foldl Cache.setFunder c).recipient = c.recipient ∧
+    ((l ++ [b]).foldl Cache.setRecipient c).funder = c.funder ∧
+    ((op = .normalize ∨ op = .receive) →
+      cleanupZc env W op (((l ++ [b]).foldl Cache.setFunder c).who op) tgt s = runOp env W op b tgt s) ∧
+    ((op = .refund ∨ op = .close) →
+      cleanupZc env W op (((l ++ [b]).foldl Cache.setRecipient c).who op) tgt s = runOp env W op b tgt s) := by
+  have hf : ∀ (l : List Funder) (c : Cache), (l.foldl Cache.setFunder c).recipient = c.recipient := by
+    intro l; induction l with
+    | nil => intro c; rfl
+    | cons x xs ih => intro c; simp only [List.foldl_cons]; rw [ih]; rfl
+  have hr : ∀ (l : List Funder) (c : Cache), (l.foldl Cache.setRecipient c).funder = c.funder := by
+    intro l; induction l with
+    | nil => intro c; rfl
+    | cons x xs ih => intro c; simp only [List.foldl_cons]; rw [ih]; rfl
+  have h1 : ((l ++ [b]).foldl Cache.setFunder c).funder = some b := by
+    simp [List.foldl_append, Cache.setFunder]
+  have h2 : ((l ++ [b]).foldl Cache.setRecipient c).recipient = some b := by
+    simp [List.foldl_append, Cache.setRecipient]
+  refine ⟨h1, h2, hf _ c, hr _ c, ?_, ?_⟩
+  · intro ho
+    rcases ho with e | e <;> subst e <;> simp only [Cache.who, h1, cleanupZc]
+  · intro ho
+    rcases ho with e | e <;> subst e <;> simp only [Cache.who, h2, cleanupZc]
+
 /-- `refund_below_min_witness` (D13): the literal reading "refunding leaves at least the minimum"
 is FALSE of the code — an account holding `0 < lamports < rentMin` is answered `Ok` and left exactly
 where it was, below the minimum. (With zero lamports the answer is `InsufficientFunds`.) -/
